@@ -32,7 +32,7 @@ def conjuncts(f):
     return [f]
 
 
-def build_query(c, goal, hyps=(), hints=(), path_len=None, negate=True, full=False):
+def build_query(c, goal, hyps=(), hints=(), path_len=None, negate=True, full=False, core=False):
     """Assertions for  defs ∧ hyps ∧ path ∧ hints ∧ ¬goal  restricted to the cone of the goal.
 
     hyps: preconditions (formulas); hints: proof hints (formulas that are themselves
@@ -49,7 +49,7 @@ def build_query(c, goal, hyps=(), hints=(), path_len=None, negate=True, full=Fal
     links = S.app_links(c)
     defs = [(names, f, E.fv(f)) for names, f in c.defs]
     others = []
-    for h in list(hyps) + [f for _, f in c.assumes] + list(path):
+    for h in ([] if core else list(hyps) + [f for _, f in c.assumes] + list(path)):
         for x in conjuncts(h):
             others.append((x, E.fv(x)))
     used_def = [False] * len(defs)
@@ -167,7 +167,11 @@ def _child_solve(assertions, timeout_s, model_vars, tactic):
     return res, model, reason
 
 
-def _child_solve2(lin, assertions, timeout_s, model_vars, tactic):
+def _child_solve2(lin, assertions, timeout_s, model_vars, tactic, core=None):
+    if core is not None:
+        r, _, _ = _child_solve(core, min(3.0, timeout_s), {}, None)
+        if r == 'unsat':
+            return 'unsat-core', None, ''
     if lin is not None:
         r, _, _ = _child_solve(lin, min(3.0, timeout_s), {}, None)
         if r == 'unsat':
@@ -342,7 +346,7 @@ class Result:
         self.smt2 = None
 
 
-def check_sat(assertions, timeout_s=20.0, model_vars=None, use_cvc5=True, tactics=(None, 'qfnra-nlsat')):
+def check_sat(assertions, timeout_s=20.0, model_vars=None, use_cvc5=True, tactics=(None, 'qfnra-nlsat'), core=None):
     """Decide satisfiability of the conjunction.  -> Result(status in sat/unsat/unknown)."""
     model_vars = model_vars or {}
     t0 = time.time()
@@ -362,9 +366,12 @@ def check_sat(assertions, timeout_s=20.0, model_vars=None, use_cvc5=True, tactic
         except RecursionError:
             lin = None
     for tac in tactics:
-        ok, val = run_forked(_child_solve2, (lin if tac is None else None, assertions, budget, model_vars, tac), budget + 6)
+        ok, val = run_forked(_child_solve2, (lin if tac is None else None, assertions, budget, model_vars, tac,
+                                             core if tac is None else None), budget + 9)
         if ok:
             res, model, why = val
+            if res == 'unsat-core':
+                return Result('unsat', None, time.time() - t0, 'z3-identity(no hypotheses)', nassert=len(assertions))
             if res == 'unsat-linabs':
                 return Result('unsat', None, time.time() - t0, 'z3-linear-abstraction', nassert=len(assertions))
             if res in ('sat', 'unsat'):
